@@ -113,6 +113,14 @@ def fam_chars():
     return out
 
 
+def fam_bigindex():
+    d300, d200, d17 = '.' * 300, '.' * 200, '.' * 17
+    return ['형.. 흑%s 형... 항%s 흑%s 항. 흑%s 항. 항.' % (d300, d200, d200, d300),
+            '형.. 흑%s 형... 흑%s 항. 흑%s 항.' % (d17, d300, d17),
+            '형.. 항%s 형... 항%s 흑%s 항. 흑%s 항. 흑... 항.' % (d300, d17, d17, d300),
+            '흑 항... 흑... 형.. 흑%s 형... 항%s 흑%s 항. 흑%s 항.' % (d300, d200, d200, d300)]
+
+
 def fam_labels():
     out = []
     labs = [(c, h) for c in (1, 2, 3) for h in ('♥', '💕', '💛', '💝', '❤')]
@@ -339,7 +347,7 @@ def run_c03(tier):
         fams['general'] = fam_general(2, ['', '항. 항.']) + fam_general(3, [''])[::7]
         fams['resume'] = fam_resume(1) + fam_resume(2)[::10]
         fams['chars'] = fam_chars()
-        fams['labels'] = fam_labels()
+        fams['labels'] = fam_labels() + fam_bigindex()
         fams['labelflow'] = labelflow_family()[::4]
         standalone = fam_templates()[::12] + fam_chars()[::9] + [g + ' ' + t for _, g in GADGETS for _, t in TRIGGERS][::2]
     else:
@@ -349,7 +357,7 @@ def run_c03(tier):
         fams['general'] = fam_general(3, ['', '항. 항.']) + fam_general(4, [''])[::4]
         fams['resume'] = fam_resume(2) + fam_resume(3)[::6]
         fams['chars'] = fam_chars()
-        fams['labels'] = fam_labels()
+        fams['labels'] = fam_labels() + fam_bigindex()
         fams['labelflow'] = labelflow_family()
         standalone = fam_templates() + fam_chars() + fam_resume(1)
     tasks = []
